@@ -1,5 +1,5 @@
 /-
-Struct-level round trip, part 6: one interpretation step preserves the law, and the induction on fuel.
+Struct-level round trip, part 8: one interpretation step preserves the law, and the induction on fuel.
 -/
 import SymbolVerif.Proofs.Codec.StructObject
 namespace SymbolVerif.Codec
@@ -80,17 +80,18 @@ theorem WF_struct {S : Schema} (h : WF S = true) {n : String} {d : StructDef} (h
 structure WfStruct (S : Schema) (n : String) (d : StructDef) : Prop where
   names : allDistinct (d.fields.map (·.name)) = true
   fields : wfFieldsFrom S d [] d.fields = true
+  covered : coveredFrom S [] d.fields = true
   base : ∀ a, d.base = some a → d.abstract = false ∧ ∃ da, S.find a = some (.struct da) ∧ da.abstract = true ∧
     d.fields.take d.inherited = da.fields
-  abs : d.abstract = true → d.base = none ∧
+  abs : d.abstract = true → d.base = none ∧ (∀ f ∈ d.fields, f.cond = none) ∧
     (∀ m ∈ d.disc, ∃ gk, lookupField d.fields m = some gk ∧ gk.kind.carries = true) ∧
     distinctDisc (S.children n) = true
 
 theorem wfStruct_iff {S : Schema} {n : String} {d : StructDef} (h : wfStruct S n d = true) : WfStruct S n d := by
   unfold wfStruct at h
   simp only [Bool.and_eq_true] at h
-  obtain ⟨⟨⟨h1, h2⟩, h3⟩, h4⟩ := h
-  refine ⟨h1, h2, ?_, ?_⟩
+  obtain ⟨⟨⟨⟨h1, h2⟩, hc⟩, h3⟩, h4⟩ := h
+  refine ⟨h1, h2, hc, ?_, ?_⟩
   · intro a ha
     simp only [ha, Bool.and_eq_true, Bool.not_eq_true'] at h3
     refine ⟨h3.1, ?_⟩
@@ -104,7 +105,7 @@ theorem wfStruct_iff {S : Schema} {n : String} {d : StructDef} (h : wfStruct S n
       | _ => simp [hf] at h3
   · intro ha
     simp only [ha, Bool.not_true, Bool.false_or, Bool.and_eq_true, Option.isNone_iff_eq_none, List.all_eq_true] at h4
-    refine ⟨h4.1.1, ?_, h4.2⟩
+    refine ⟨h4.1.1.1, h4.1.1.2, ?_, h4.2⟩
     intro m hm
     have := h4.1.2 m hm
     cases hl : lookupField d.fields m with
@@ -117,23 +118,26 @@ section
 variable {S : Schema} {T : String → Bytes → Bytes} {r : Rec} {g : String → Val → Bool}
 variable {d : StructDef} {vs : List (String × Val)}
 
-theorem okStruct_fields {sup : StructDef → Bool} (h : okStruct S sup r g d vs = true) :
-    sup d = true ∧ (∀ f ∈ d.fields, admCond r d vs f = true ∧ admMember g vs f = true) ∧ admDisc S d vs = true := by
+theorem okStruct_fields (h : okStruct S r g d vs = true) :
+    (∀ f ∈ d.fields, admCond r d vs f = true ∧ admMember g vs f = true) ∧
+    admUnionsFrom r d vs [] d.fields = true ∧ admDisc S d vs = true := by
   unfold okStruct at h
   simp only [Bool.and_eq_true, List.all_eq_true] at h
   exact ⟨h.1.1, h.1.2, h.2⟩
 
 /-- a concrete struct class: size law and round trip -/
-theorem concrete_law (hr : RecOk S g r) {name : String} (hwfd : WfStruct S name d) (hcovd : d.covered = true)
+theorem concrete_law (hr : RecOk S g r) {name : String} (hwfd : WfStruct S name d)
     (hshape : shapeOk d vs = true)
     (hadm : ∀ f ∈ d.fields, admCond r d vs f = true ∧ admMember g vs f = true)
+    (hun : admUnionsFrom r d vs [] d.fields = true)
     {b : Bytes} (he : encStruct S T r d vs = .ok b) (ty : String) :
     structSize r d vs = .ok b.length ∧ ∀ tail, decConcrete S T r ty d (b ++ tail) = .ok (.struct ty vs) := by
   refine ⟨structSize_of_enc hr.law b (fun f hf => (hadm f hf).2) he, ?_⟩
   intro tail
-  obtain ⟨st, hdec, henv⟩ := decFields_of_enc hr hwfd.names hwfd.fields hcovd hadm he d.fields [] (by simp) d tail
+  obtain ⟨st, pend, hdec, hprog⟩ := decFields_of_enc hr hwfd.names hwfd.fields hwfd.covered hadm hun he d.fields []
+    (by simp) (.inl rfl) d tail
   unfold decConcrete
-  simp only [hdec, bind, Except.bind, objectOf_of_env hwfd.names hshape henv]
+  simp only [hdec, bind, Except.bind, objectOf_of_env hwfd.names hshape hprog]
 
 end
 
@@ -298,8 +302,7 @@ theorem child_facts (hwf : WF S = true) {ty vty : String} {d : StructDef} (hf : 
   subst hfa
   exact ⟨dc, hm, hfc, hna, hw, hb, htake⟩
 
-theorem step_law (hwf : WF S = true) (sup : StructDef → Bool) (hsup : ∀ d, sup d = true → d.covered = true)
-    (hr : RecOk S g r) : (stepRec S T r).LawOn (okStep S sup r g) := by
+theorem step_law (hwf : WF S = true) (hr : RecOk S g r) : (stepRec S T r).LawOn (okStep S r g) := by
   apply Rec.lawOn_intro
   intro ty v b hok he
   show typeSizeStep S r ty v = .ok b.length ∧ ∀ tail, decTypeStep S T r ty (b ++ tail) = .ok v
@@ -359,8 +362,8 @@ theorem step_law (hwf : WF S = true) (sup : StructDef → Bool) (hsup : ∀ d, s
             simp only [hfc, hna, Bool.false_eq_true, if_false] at he hok ⊢
             by_cases hshape : shapeOk dc vs = true
             · simp only [hshape, if_true] at he
-              obtain ⟨hs, hadm, hdisc⟩ := okStruct_fields hok
-              have hcl := concrete_law hr hwc (hsup dc hs) hshape hadm he vty
+              obtain ⟨hadm, hun, hdisc⟩ := okStruct_fields hok
+              have hcl := concrete_law hr hwc hshape hadm hun he vty
               have hne : (vty == ty) = false := by
                 simp only [beq_eq_false_iff_ne, ne_eq]
                 intro h
@@ -375,10 +378,9 @@ theorem step_law (hwf : WF S = true) (sup : StructDef → Bool) (hsup : ∀ d, s
               -- the factory: read the header with the abstract struct's members, then dispatch
               have hsplit : dc.fields = d.fields ++ dc.fields.drop dc.inherited := by
                 rw [← htake]; exact (List.take_append_drop _ _).symm
-              obtain ⟨st, hdec, henv⟩ := decFields_of_enc hr hwc.names hwc.fields (hsup dc hs) hadm he
-                d.fields (dc.fields.drop dc.inherited) hsplit d tail
-              have hdnames : allDistinct (d.fields.map (·.name)) = true := hwd.names
-              obtain ⟨-, hdisc_mem, hdd⟩ := hwd.abs hab
+              obtain ⟨-, hduncond, hdisc_mem, hdd⟩ := hwd.abs hab
+              obtain ⟨st, pend, hdec, hprog⟩ := decFields_of_enc hr hwc.names hwc.fields hwc.covered hadm hun he
+                d.fields (dc.fields.drop dc.inherited) hsplit (.inr hduncond) d tail
               have hdiscv : d.disc.mapM (envInt st.env) = .ok dc.discValues := by
                 apply discMatch_mapM
                 · unfold admDisc at hdisc
@@ -386,7 +388,7 @@ theorem step_law (hwf : WF S = true) (sup : StructDef → Bool) (hsup : ∀ d, s
                 · intro m hm
                   obtain ⟨gk, hl, hcar⟩ := hdisc_mem m hm
                   obtain ⟨hgm, hgn⟩ := lookupField_some hl
-                  obtain ⟨v, hv, hp⟩ := henv.get hdnames hgm
+                  obtain ⟨v, hv, hp⟩ := hprog.envOk gk hgm (hduncond gk hgm)
                   unfold EntryOk at hp
                   simp only [hcar, if_true] at hp
                   rw [hgn] at hv hp
@@ -404,8 +406,8 @@ theorem step_law (hwf : WF S = true) (sup : StructDef → Bool) (hsup : ∀ d, s
           · rename_i hc
             simp only [Bool.and_eq_true, beq_iff_eq] at hc
             obtain ⟨rfl, hshape⟩ := hc
-            obtain ⟨hs, hadm, -⟩ := okStruct_fields hok
-            have hcl := concrete_law hr hwd (hsup d hs) hshape hadm he vty
+            obtain ⟨hadm, hun, -⟩ := okStruct_fields hok
+            have hcl := concrete_law hr hwd hshape hadm hun he vty
             simp only [beq_self_eq_true, if_true]
             exact hcl
           · cases he
@@ -478,26 +480,46 @@ theorem step_ne (hwf : WF S = true) (hne : ∀ ty, posSize S ty = true → r.Non
           · cases he
       | _ => simp at he
 
-theorem step_ok (hwf : WF S = true) (sup : StructDef → Bool) (hsup : ∀ d, sup d = true → d.covered = true)
-    (hr : RecOk S g r) : RecOk S (okStep S sup r g) (stepRec S T r) :=
-  ⟨step_law hwf sup hsup hr, step_ne hwf hr.ne⟩
+theorem step_scalar (S : Schema) (T : String → Bytes → Bytes) (r : Rec) : ScalarOk S (stepRec S T r) := by
+  refine ⟨?_, ?_, ?_⟩
+  · intro ty w hw v
+    show typeSizeStep S r ty v = .ok w
+    unfold typeSizeStep
+    unfold scalarWidth at hw
+    cases hf : S.find ty with
+    | none => simp [hf] at hw
+    | some t => cases t <;> simp [hf] at hw ⊢ <;> exact hw
+  · intro ty w s hf buf
+    show decTypeStep S T r ty buf = _
+    unfold decTypeStep
+    simp [hf]
+  · intro ty n hf buf hle
+    show decTypeStep S T r ty buf = _
+    unfold decTypeStep
+    have : ¬ n > buf.length := by omega
+    simp [hf, this]
+
+theorem step_ok (hwf : WF S = true) (hr : RecOk S g r) : RecOk S (okStep S r g) (stepRec S T r) :=
+  ⟨step_law hwf hr, step_ne hwf hr.ne, fun _ _ _ _ => step_scalar S T r⟩
 
 end
 
-/-- every fuel level satisfies the law on the admitted, supported values -/
-theorem recN_ok {S : Schema} (T : String → Bytes → Bytes) (hwf : WF S = true) (sup : StructDef → Bool)
-    (hsup : ∀ d, sup d = true → d.covered = true) : ∀ n, RecOk S (okN S T sup n) (recN S T n) := by
+/-- every fuel level satisfies the law on the admissible values -/
+theorem recN_ok {S : Schema} (T : String → Bytes → Bytes) (hwf : WF S = true) :
+    ∀ n, RecOk S (admN S T n) (recN S T n) := by
   intro n
   induction n with
   | zero =>
-    refine ⟨?_, ?_⟩
+    refine ⟨?_, ?_, ?_⟩
     · apply Rec.lawOn_intro
       intro ty v b _ he
       cases he
     · intro ty _ v b he
       cases he
+    · intro ty v b he
+      cases he
   | succ n ih =>
     rw [recN_succ]
-    exact step_ok hwf sup hsup ih
+    exact step_ok hwf ih
 
 end SymbolVerif.Codec
